@@ -103,6 +103,11 @@ Definition replace_oracle (kd : kind) (m : list (pyv * pyv)) (cs : list val) (o 
 Definition keep_oracle (t : tbl) (names : list string) (o : obs) : bool :=
   match o with OTbl r => tbl_same (keep_spec t names) r | _ => false end.
 
+(* the same by identity: ids = the object holding each column of t, args = names / column objects of t itself;
+   the result has all rows and exactly the columns named or passed *)
+Definition keep_id_oracle (t : tbl) (ids : list nat) (args : list oarg) (o : obs) : bool :=
+  match o with OTbl r => tbl_same (keep_by_identity t ids args) r | _ => false end.
+
 (* ---- z: shape only (mean 0 / std 1 are checked with a tolerance on the Python side) *)
 Definition z_oracle (kd : kind) (cs : list val) (o : obs) : bool :=
   (* z scores of an IntColumn are returned as a FloatColumn *)
